@@ -324,6 +324,18 @@ func schedMix(res *core.Result, r *core.RNG) error {
 		return err
 	}
 	w := s.w
+	// a first week with a few hundred values, archived by a rotation before the workload starts: the
+	// archived week is queried (with and without insert_false_negatives) during the workload and must be
+	// the same record afterwards
+	for ts := uint32(600); ts < 900; ts++ {
+		s.send(s.a.Devices[int(ts)%2], ts, 100+uint64(ts))
+	}
+	w.SetNow(3300)
+	s.rotateTick()
+	archivedBefore := ""
+	if sn := w.S.VerifSnapshot(); len(sn.History) == 1 {
+		archivedBefore = srv.CoqStats(sn.History[0])
+	}
 	_, _, up := w.S.Ports()
 	addr := fmt.Sprintf("127.0.0.1:%d", up)
 	type sent struct {
@@ -368,7 +380,7 @@ func schedMix(res *core.Result, r *core.RNG) error {
 		}()
 	}
 	bg(func() {
-		w.Raw("GET", fmt.Sprintf("/api/v1/all-device-stats?timeslot_offset=0&insert_false_negatives=%v", r.Bool()), nil)
+		w.Raw("GET", fmt.Sprintf("/api/v1/all-device-stats?timeslot_offset=%d&insert_false_negatives=%v", 2016*r.Intn(2), r.Bool()), nil)
 	})
 	bg(func() { w.Raw("GET", "/api/v1/equipment", nil) })
 	bg(func() { w.Raw("GET", "/api/v1/archive", nil) })
@@ -393,6 +405,12 @@ func schedMix(res *core.Result, r *core.RNG) error {
 	caps := map[uint32]uint64{}
 	for id, a := range sn.Equipment {
 		caps[id] = a.Capacity
+	}
+	if archivedBefore != "" {
+		res.Count("sched.mix-archived-week")
+		if len(sn.History) < 1 || srv.CoqStats(sn.History[0]) != archivedBefore {
+			s.fail("the archived week held by the server after the concurrent workload (reports, statistics queries with and without insert_false_negatives, archives, syncs, impact rounds) is not the record that was archived before it", "c13-archived-week-changed")
+		}
 	}
 	bySlot := map[slotKey][]sent{}
 	for _, x := range all {
